@@ -1,1 +1,147 @@
+import Mathlib.Tactic
 import Model.Srtm
+/-!
+Arithmetic facts about the index computations of `get_native_grids` (floor / ceil / trunc over
+exact rationals) and about `% 360`.
+-/
+namespace Srtm
+
+theorem dlat_eq : dlat = 1 / 120 := by unfold dlat; norm_num
+theorem dlon_eq : dlon = 1 / 120 := by unfold dlon; norm_num
+
+theorem floor_spec (x : ℚ) : ((x.floor : ℤ) : ℚ) ≤ x ∧ x < ((x.floor : ℤ) : ℚ) + 1 := by
+  refine ⟨Rat.floor_le x, ?_⟩
+  have := Rat.lt_floor_add_one x
+  push_cast at this
+  exact this
+
+theorem ceil_spec (x : ℚ) : ((x.ceil : ℤ) : ℚ) - 1 < x ∧ x ≤ ((x.ceil : ℤ) : ℚ) := by
+  refine ⟨?_, Rat.le_ceil⟩
+  have h : (x.ceil - 1 : ℤ) < x.ceil := by omega
+  have := (Rat.lt_ceil_iff (x := x) (y := x.ceil - 1)).mp h
+  push_cast at this
+  exact this
+
+theorem trunc_of_nonneg {x : ℚ} (h : 0 ≤ x) : trunc x = x.floor := by
+  unfold trunc; simp [h]
+
+/-- `(i_max, i_min)` in closed form -/
+theorem nativeRows_eq (latMin latMax : ℚ) :
+    nativeRows latMin latMax = (((90 - latMax) * 120).floor + 1, ((90 - latMin) * 120).ceil) := by
+  unfold nativeRows
+  simp only [dlat_eq]
+  congr 2 <;> ring_nf
+
+/-- first row `rF` (1-based): `rF - 1 ≤ (90 - lat_max)·120 < rF` -/
+theorem rowFirst_spec (latMin latMax : ℚ) :
+    (((nativeRows latMin latMax).1 : ℤ) : ℚ) - 1 ≤ (90 - latMax) * 120 ∧
+    (90 - latMax) * 120 < ((nativeRows latMin latMax).1 : ℤ) := by
+  rw [nativeRows_eq]
+  have := floor_spec ((90 - latMax) * 120)
+  push_cast
+  constructor <;> linarith [this.1, this.2]
+
+/-- last row `rL` (1-based): `rL - 1 < (90 - lat_min)·120 ≤ rL` -/
+theorem rowLast_spec (latMin latMax : ℚ) :
+    (((nativeRows latMin latMax).2 : ℤ) : ℚ) - 1 < (90 - latMin) * 120 ∧
+    (90 - latMin) * 120 ≤ ((nativeRows latMin latMax).2 : ℤ) := by
+  rw [nativeRows_eq]
+  exact ceil_spec _
+
+/-- first column `cF` (0-based), for `lon_min ≥ -180`: `cF ≤ (lon_min + 180)·120 < cF + 1` -/
+theorem colFirst_spec (lonMin lonMax : ℚ) (h : -180 ≤ lonMin) :
+    (((nativeCols lonMin lonMax).1 : ℤ) : ℚ) ≤ (lonMin + 180) * 120 ∧
+    (lonMin + 180) * 120 < ((nativeCols lonMin lonMax).1 : ℤ) + 1 := by
+  unfold nativeCols
+  simp only [dlon_eq]
+  have e : (lonMin + 180) / (1 / 120) = (lonMin + 180) * 120 := by ring
+  rw [e, trunc_of_nonneg (by linarith)]
+  exact floor_spec _
+
+/-- last column `cL` (0-based), for `lon_max ≥ -180`: `cL < (lon_max + 180)·120 ≤ cL + 1` -/
+theorem colLast_spec (lonMin lonMax : ℚ) (h : -180 ≤ lonMax) :
+    (((nativeCols lonMin lonMax).2 : ℤ) : ℚ) < (lonMax + 180) * 120 ∧
+    (lonMax + 180) * 120 ≤ ((nativeCols lonMin lonMax).2 : ℤ) + 1 := by
+  unfold nativeCols
+  simp only [dlon_eq]
+  have e : (lonMax + 180) / (1 / 120) = (lonMax + 180) * 120 := by ring
+  rw [e, trunc_of_nonneg (by linarith)]
+  have := floor_spec ((lonMax + 180) * 120)
+  by_cases hlt : ((((lonMax + 180) * 120).floor : ℤ) : ℚ) < (lonMax + 180) * 120
+  · rw [if_neg (not_not.mpr hlt)]
+    constructor <;> linarith [this.1, this.2]
+  · rw [if_pos hlt]
+    push_cast
+    have hlt' := not_lt.mp hlt
+    constructor <;> linarith [this.1, this.2]
+
+/-- an integer strictly between `x - 1` and … is unique: `a ≤ x < a + 1`, `b ≤ x < b + 1` ⇒ `a = b` -/
+theorem int_unique_floor {a b : ℤ} {x : ℚ} (ha : (a : ℚ) ≤ x) (ha' : x < a + 1)
+    (hb : (b : ℚ) ≤ x) (hb' : x < b + 1) : a = b := by
+  have h1 : (a : ℚ) < b + 1 := by linarith
+  have h2 : (b : ℚ) < a + 1 := by linarith
+  have h1' : a < b + 1 := by exact_mod_cast h1
+  have h2' : b < a + 1 := by exact_mod_cast h2
+  omega
+
+theorem int_unique_ceil {a b : ℤ} {x : ℚ} (ha : (a : ℚ) - 1 < x) (ha' : x ≤ a)
+    (hb : (b : ℚ) - 1 < x) (hb' : x ≤ b) : a = b := by
+  have h1 : (a : ℚ) - 1 < b := by linarith
+  have h2 : (b : ℚ) - 1 < a := by linarith
+  have h1' : a - 1 < b := by exact_mod_cast h1
+  have h2' : b - 1 < a := by exact_mod_cast h2
+  omega
+
+/-! ### `% 360` normalisation is the identity on the covered longitudes -/
+
+theorem pymod_of_nonneg_lt {x : ℚ} (h0 : 0 ≤ x) (h1 : x < 360) : pymod x 360 = x := by
+  unfold pymod
+  have hf : (x / 360).floor = 0 := by
+    have := floor_spec (x / 360)
+    have h2 : x / 360 < 1 := by rw [div_lt_one (by norm_num)]; exact h1
+    have h3 : 0 ≤ x / 360 := by positivity
+    have a1 : ((x / 360).floor : ℚ) < 1 := by linarith [this.1]
+    have a2 : (-1 : ℚ) < ((x / 360).floor : ℤ) := by linarith [this.2]
+    have a1' : (x / 360).floor < 1 := by exact_mod_cast a1
+    have a2' : -1 < (x / 360).floor := by exact_mod_cast a2
+    omega
+  rw [hf]; simp
+
+theorem pymod_of_neg {x : ℚ} (h0 : -360 ≤ x) (h1 : x < 0) : pymod x 360 = x + 360 := by
+  unfold pymod
+  have hf : (x / 360).floor = -1 := by
+    have := floor_spec (x / 360)
+    have h2 : x / 360 < 0 := by apply div_neg_of_neg_of_pos h1; norm_num
+    have h3 : -1 ≤ x / 360 := by rw [le_div_iff₀ (by norm_num)]; linarith
+    have a1 : ((x / 360).floor : ℚ) < 0 := by linarith [this.1]
+    have a2 : (-2 : ℚ) < ((x / 360).floor : ℤ) := by linarith [this.2]
+    have a1' : (x / 360).floor < 0 := by exact_mod_cast a1
+    have a2' : -2 < (x / 360).floor := by exact_mod_cast a2
+    omega
+  rw [hf]; push_cast; ring
+
+theorem normLonMin_id {x : ℚ} (h0 : -180 ≤ x) (h1 : x < 180) : normLonMin x = x := by
+  unfold normLonMin
+  by_cases hx : 0 ≤ x
+  · rw [pymod_of_nonneg_lt hx (by linarith)]
+    simp only [ge_iff_le]
+    rw [if_neg (by linarith)]
+  · have hx := not_le.mp hx
+    rw [pymod_of_neg (by linarith) hx]
+    simp only [ge_iff_le]
+    rw [if_pos (by linarith)]
+    ring
+
+theorem normLonMax_id {x : ℚ} (h0 : -180 < x) (h1 : x ≤ 180) : normLonMax x = x := by
+  unfold normLonMax
+  by_cases hx : 0 ≤ x
+  · rw [pymod_of_nonneg_lt hx (by linarith)]
+    simp only [gt_iff_lt]
+    rw [if_neg (by linarith)]
+  · have hx := not_le.mp hx
+    rw [pymod_of_neg (by linarith) hx]
+    simp only [gt_iff_lt]
+    rw [if_pos (by linarith)]
+    ring
+
+end Srtm
